@@ -23,6 +23,7 @@ concrete failing input and the correspondence on out-of-range values differs.
 """
 import itertools
 
+from checks import c17_rfc
 from harness import core, rng, runner, tree
 
 PROP_MODULES = ["AQ.Props.C17", "AQ.Props.C17tls"]
@@ -339,10 +340,20 @@ def oracle_ack_decode(impl, stats):
                 # RFC 9000 §19.3.1 wants FRAME_ENCODING_ERROR for a negative packet number; the
                 # codec accepts it and re-encodes it faithfully (not a C17 failure) -- counted only
                 stats["ack_negative_packet_numbers_accepted"] = stats.get("ack_negative_packet_numbers_accepted", 0) + 1
+            data = b"" if op.split()[1] == "-" else bytes.fromhex(op.split()[1])
+            want = c17_rfc.rfc_ack_decode(data)     # RFC 9000 §19.3 reader: exactly Range Count pairs
             if not o.startswith("ok "):
                 if o not in ("err BufferReadError",):
                     return (f"{op!r}: undocumented error {o!r}", {"kind": "ack-error-class"})
+                if want is not None:
+                    return (f"{op!r}: a complete ACK frame ({want}) was rejected: {o}", {"kind": "ack-reject-valid"})
                 continue
+            if want is None:
+                return (f"{op!r}: accepted as {o!r} although the ACK Range Count announces more ranges than "
+                        f"the bytes hold", {"kind": "ack-range-count"})
+            if o != f"ok rs=[{want[0]}] delay={want[1]} used={want[2]}":
+                return (f"{op!r}: got {o!r}; an RFC 9000 §19.3 reader gives rs=[{want[0]}] delay={want[1]} "
+                        f"used={want[2]} (exactly ACK Range Count (gap, length) pairs)", {"kind": "ack-range-count"})
             d = kv(o)
             rs = d["rs"][1:-1] or "-"
             o2 = impl.step(f"codec.ack_push {rs} {d['delay']} 4096")
@@ -510,6 +521,22 @@ def header_fuzz_cases(impl, r, n, thorough):
     for s in seeds:     # every truncation of every seed
         for k in range(len(s) + 1):
             yield [f"codec.header {hx(s[:k])} {r.choice(['none', 8])}"]
+    # length fields that lie: DCID length, SCID length, token length, payload Length, each +-1/+-2 and
+    # at the 20/21 boundary, in every long-header seed (the rest of the bytes unchanged)
+    for s in seeds[:-1]:
+        dl = s[5]
+        spos = 6 + dl
+        idx = [5, spos, spos + 1 + s[spos]]            # dcid len, scid len, token length / Length
+        if (s[0] >> 4) & 3 == (1 if s[1:5] == V2.to_bytes(4, "big") else 0) and s[1:5] != bytes(4):
+            idx.append(idx[2] + 1 + (s[idx[2]] & 0x3F))    # Initial: the Length field after the token
+        for i in idx:
+            if i >= len(s):
+                continue
+            for nv in {s[i] - 2, s[i] - 1, s[i] + 1, s[i] + 2, 0, 20, 21, 63, 64}:
+                if 0 <= nv < 256 and nv != s[i]:
+                    m = bytearray(s)
+                    m[i] = nv
+                    yield [f"codec.header {bytes(m).hex()} none", f"codec.header {bytes(m).hex()} 8"]
     for _ in range(n):
         s = r.choice(seeds)
         for _ in range(r.randrange(1, 4)):
@@ -532,6 +559,15 @@ def oracle_header_fuzz(case, out):
             n = len(op.split()[1]) // 2 if op.split()[1] != "-" else 0
             if int(d["used"]) > n or int(d["len"]) > n:
                 return (f"{op[:80]!r}: header claims {d['len']} bytes / used {d['used']} of {n}", {"kind": "header-overrun"})
+        # independent RFC 9000 §17 reader: same verdict, same fields, same consumed length
+        t = op.split()
+        data = b"" if t[1] == "-" else bytes.fromhex(t[1])
+        want = c17_rfc.rfc_header_decode(data, None if t[2] == "none" else int(t[2]))
+        if want is None and o.startswith("ok "):
+            return (f"{op[:90]!r}: accepted as {o!r}; an RFC 9000 §17 reader rejects it (a CID / token / payload "
+                    f"length field runs past the packet or exceeds its limit)", {"kind": "header-declared-length"})
+        if want is not None and o != want:
+            return (f"{op[:90]!r}: got {o!r}; an RFC 9000 §17 reader gives {want!r}", {"kind": "header-value"})
     return None
 
 
@@ -596,6 +632,13 @@ def oracle_tp(case, out):
         return None
     if out[0] != "ok " + t[1]:
         return (f"transport parameters {t[1][:120]!r} came back as {out[0][:160]!r}", {"kind": "tp-roundtrip"})
+    if len(out) > 1 and case[1].startswith("spec.tp ") and out[1].startswith("ok "):
+        # the real encoder's bytes, read by the RFC 9000 §18 walker
+        enc = b"" if out[1] == "ok -" else bytes.fromhex(out[1].split()[1])
+        got = c17_rfc.rfc_tp_decode(enc)
+        if got != t[1]:
+            return (f"encoding of {t[1][:100]!r} is {enc.hex()[:120]}, which an RFC 9000 §18 reader decodes as "
+                    f"{got!r}", {"kind": "tp-encoding"})
     return None
 
 
@@ -638,13 +681,65 @@ def tp_decode_cases(impl, r, n, thorough):
         yield [f"codec.tp_pull {hx(s)}"]
 
 
+def tp_length_lie_cases(impl):
+    """targeted family: for EVERY known parameter id, a well-formed value whose declared length is
+    shorter / longer than the varint or fixed structure inside, alone, followed by a valid parameter,
+    and preceded by one (an over-run that lands exactly on the next parameter boundary is the case a
+    decoder that only checks 'consumed at least the declared length' accepts)"""
+    suffixes = [b"", bytes.fromhex("0c00"), bytes.fromhex("010480000005")]
+    prefixes = [b"", bytes.fromhex("0e0102")]
+    for pid in ALL_IDS:
+        idb = rfc_varint_encode(pid)
+        bodies = []
+        for i in range(9):
+            o = impl.step(f"codec.tp_push {pid:x}={tp_value(pid, i)} 2000")
+            if o.startswith("ok "):
+                enc = b"" if o == "ok -" else bytes.fromhex(o.split()[1])
+                ln = rfc_varint_decode(enc[len(idb):])
+                bodies.append(enc[len(idb) + ln[1]:])
+        if pid in INT_IDS:      # non-minimal varints of every width too
+            bodies += [b"\x40\x0a", b"\x80\x00\x00\x0a", b"\xc0\x00\x00\x00\x00\x00\x00\x0a"]
+        seen = set()
+        for body in bodies:
+            for delta in (-8, -4, -3, -2, -1, 0, 1, 2, 3, 4):
+                declared = len(body) + delta
+                if declared < 0 or (declared, body) in seen:
+                    continue
+                seen.add((declared, body))
+                for pre in prefixes:
+                    for suf in suffixes:
+                        yield [f"codec.tp_pull {hx(pre + idb + rfc_varint_encode(declared) + body + suf)}"]
+
+
 def oracle_tp_decode(impl):
     def f(case, out):
         for op, o in zip(case, out):
+            data = b"" if op.split()[1] == "-" else bytes.fromhex(op.split()[1])
+            want = c17_rfc.rfc_tp_decode(data)     # RFC 9000 §18 walk, written from the RFC
             if o.startswith("err "):
                 if o not in ("err ValueError", "err BufferReadError"):
                     return (f"{op[:80]!r}: undocumented error {o!r}", {"kind": "tp-error-class"})
+                if want is not None:
+                    return (f"{op[:80]!r}: a well-formed parameter sequence ({want[:100]}) was rejected: {o}",
+                            {"kind": "tp-reject-valid"})
                 continue
+            if want is None:
+                return (f"transport parameters {data.hex()} accepted as {o.split()[1][:120]!r} although some "
+                        f"parameter does not occupy exactly its declared length (RFC 9000 §18 id/length/value walk "
+                        f"fails): the decoder read past a declared length", {"kind": "tp-declared-length"})
+            if o.split()[1] != want:
+                return (f"transport parameters {data.hex()} decoded as {o.split()[1][:120]!r}; an RFC 9000 §18 "
+                        f"reader gives {want[:120]!r}", {"kind": "tp-value"})
+            # re-encoding must give an encoding whose RFC walk yields the same values
+            o4 = impl.step(f"codec.tp_push {want} 70000")
+            if o4.startswith("ok "):
+                enc = b"" if o4 == "ok -" else bytes.fromhex(o4.split()[1])
+                if c17_rfc.rfc_tp_decode(enc) != want:
+                    return (f"{data.hex()} decoded as {want[:100]!r}; its re-encoding {enc.hex()[:120]} reads as "
+                            f"{c17_rfc.rfc_tp_decode(enc)!r}", {"kind": "tp-reencode"})
+            elif len(data) <= 65536:
+                return (f"{data.hex()[:80]} decoded as {want[:100]!r} which cannot be re-encoded: {o4}",
+                        {"kind": "tp-reencode"})
             # accepted: re-encoding decodes to the same set (C17, second sentence)
             txt = o.split()[1]
             n = 0 if op.split()[1] == "-" else len(op.split()[1]) // 2
@@ -729,6 +824,9 @@ def main(tier):
     # ---- D. transport parameters
     run("tp-subsets", tp_subset_cases(r, thorough), oracle_tp, lambda c, o: c[0].count("=") >= 2)
     run("tp-out-of-range", list(tp_out_of_range_cases()))
+    cases = list(tp_length_lie_cases(impl))
+    run("tp-declared-length", cases, oracle_tp_decode(impl), lambda c, o: True)
+    ctx.sample({"tp-declared-length": cases[len(cases) // 3]})
     cases = list(tp_decode_cases(impl, r, 4000 if not thorough else 150000, thorough))
     run("tp-decode", cases, oracle_tp_decode(impl), lambda c, o: any(x.startswith("ok ") and not x.startswith("ok - ") for x in o))
     ctx.sample({"tp-decode": cases[-1]})
@@ -743,7 +841,12 @@ def main(tier):
         "v1/v2/unknown version, Retry x v1/v2, Version Negotiation, short headers x spin x key phase x host_cid_length; "
         "every truncation of seed packets, bit flips, random bytes. Transport parameters: thorough all 2^20 subsets "
         "(quick: sizes <=2, >=19 and 3000 random) with rotating boundary values, each parameter alone with each boundary "
-        "value, out-of-range values, lying length fields, truncations, mutations. Non-trivial = value beyond one byte / "
+        "value, out-of-range values, lying length fields (for every known id: declared length -8..+4 around the varint / "
+        "fixed structure inside, alone, before and after a valid parameter), truncations, mutations; long-header seeds "
+        "with DCID/SCID/token/Length fields off by 1-2 and at 20/21. Every decoder verdict (transport parameters, ACK "
+        "frames, headers) is compared with an independent plain-Python reader written from RFC 9000 §17/§18/§19.3 "
+        "(checks/c17_rfc.py): accepted => every structure fills exactly its declared length, same values, same consumed "
+        "length, and the re-encoding reads back identically; rejected => the RFC reader rejects too. Non-trivial = value beyond one byte / "
         "multi-range set / accepted decode / >=2 parameters; distinct by op-sequence hash."
     )
     ctx.cov["exhaustive"] = True
